@@ -1,6 +1,7 @@
 package main
 
 import (
+	"errors"
 	"bytes"
 	"fmt"
 	"reflect"
@@ -95,6 +96,11 @@ func parseGuarded(src string) (tf parser.TemplateFile, outcome string, errText s
 		case r.pan != nil:
 			return tf, "panic", fmt.Sprint(r.pan), dur
 		case r.err != nil:
+			// the structured position of a parse error (index, line, column), for the in-bounds / consistency check
+			var pe parse.ParseError
+			if errors.As(r.err, &pe) {
+				return tf, "err", fmt.Sprintf("%s @@%d,%d,%d", r.err.Error(), pe.Pos.Index, pe.Pos.Line, pe.Pos.Col), dur
+			}
 			return tf, "err", r.err.Error(), dur
 		}
 		return r.tf, "ok", "", dur
@@ -204,6 +210,10 @@ func runC06(e *emitter, tier string, seed uint64) {
 		// the same file behind a byte order mark: positions are positions in the bytes handed in
 		if i%8 == 0 {
 			doFile("\ufeff"+s, "bom")
+		}
+		// ... and with CRLF line ends (top-level Go blocks of several lines included)
+		if i%6 == 1 {
+			doFile(strings.ReplaceAll(s, "\n", "\r\n"), "crlf")
 		}
 	}
 	// truncations and structure-aware mutations
@@ -480,6 +490,11 @@ func runC07(e *emitter, tier string, seed uint64) {
 		n = 6000
 	}
 	for i := 0; i < n; i++ {
-		doFile(newTgen(r, 2+r.intn(3)).file(), "generated")
+		f := newTgen(r, 2+r.intn(3)).file()
+		doFile(f, "generated")
+		if i%8 == 0 {
+			// positions are positions in the bytes of the file: also behind a byte order mark (and a header comment line)
+			doFile("\ufeff// header\n"+f, "bom")
+		}
 	}
 }
